@@ -297,6 +297,8 @@ def analysis_config(draw, N, schedulers=("ltf", "vectorized_ltf", "new_ltf", "lp
         "np_order": draw(st.integers(0, 3)) == 3,
         "psll_none": draw(st.integers(0, 3)) == 3,
         "sched_as": draw(st.sampled_from(["name", "name", "name", "function", "wrapper"])),
+        # numeric arguments given as numpy scalars / python ints with the same value
+        "arg_types": draw(st.sampled_from(["plain", "plain", "plain", "np_ints", "np_floats", "py_ints"])),
     }
     if not (cfg["bmin"] < N / 2.0):
         cfg["bmin"] = 1.0
@@ -366,6 +368,21 @@ def make_analyzer(data, fs, cfg, **override):
     if c.get("psll_none") and "kaiser" not in c["win"]:
         kw["psll"] = None
     kw["scheduler"] = scheduler_arg(c)
+    how = c.get("arg_types", "plain")
+    if how == "np_ints":
+        kw.update(Lmin=np.int64(kw["Lmin"]), Jdes=np.int32(kw["Jdes"]), Kdes=np.int64(kw["Kdes"]))
+    elif how == "np_floats":
+        fs = np.float64(fs)
+        kw["bmin"] = np.float64(kw["bmin"])
+        if not isinstance(kw["olap"], str):
+            kw["olap"] = np.float64(kw["olap"])
+    elif how == "py_ints":
+        if float(fs) == int(fs):
+            fs = int(fs)
+        if float(kw["bmin"]) == int(kw["bmin"]):
+            kw["bmin"] = int(kw["bmin"])
+        if not isinstance(kw["olap"], str) and float(kw["olap"]) == 0.0:
+            kw["olap"] = 0
     for k in ("band", "force_target_nf"):
         if k in c:
             kw[k] = c[k]
